@@ -80,4 +80,29 @@ example : boxesDisjoint (some ⟨0, 0, 1, 1⟩) (some ⟨2, 0, 3, 1⟩) = true :
 example : NoEdges [] ∧ NoEdges [{ ext := [], holes := [] }] := by
   constructor <;> intro p hp <;> simp_all
 
+/-- the set-algebra laws of C06, pointwise, for the semantics of the four operations: commutativity of
+    ∩, ∪, ⊕; A op A; an empty operand -/
+theorem C06_laws (a b : Bool) :
+    opSem .intersection a b = opSem .intersection b a
+    ∧ opSem .union a b = opSem .union b a
+    ∧ opSem .xor a b = opSem .xor b a
+    ∧ opSem .intersection a a = a ∧ opSem .union a a = a
+    ∧ opSem .difference a a = false ∧ opSem .xor a a = false
+    ∧ opSem .union a false = a ∧ opSem .difference a false = a
+    ∧ opSem .intersection a false = false ∧ opSem .difference false a = false
+    ∧ opSem .xor a false = a := by
+  cases a <;> cases b <;> decide
+
+/-- C06 commutativity is a consequence of C01 for the two calls: wherever both results have the region their
+    operation names, they have the same region -/
+theorem C06_of_C01 (op : Op) (hop : op ≠ .difference) (a b r1 r2 : MPoly) (q : Pt)
+    (h1 : memMP r1 q = opSem op (memEO a q) (memEO b q))
+    (h2 : memMP r2 q = opSem op (memEO b q) (memEO a q)) : memMP r1 q = memMP r2 q := by
+  rw [h1, h2]
+  cases op with
+  | intersection => exact (C06_laws _ _).1
+  | union => exact (C06_laws _ _).2.1
+  | xor => exact (C06_laws _ _).2.2.1
+  | difference => exact absurd rfl hop
+
 end Gbo.Props
